@@ -52,6 +52,8 @@ pub struct SorterBuilder<MF, CC> {
     sort_algorithm: SortAlgorithm,
     sort_in_parallel: bool,
     merge: MF,
+    #[cfg(grenad_verif)]
+    verif_initial_capacity: Option<usize>,
 }
 
 impl<MF> SorterBuilder<MF, DefaultChunkCreator> {
@@ -71,6 +73,8 @@ impl<MF> SorterBuilder<MF, DefaultChunkCreator> {
             sort_algorithm: SortAlgorithm::Stable,
             sort_in_parallel: false,
             merge,
+            #[cfg(grenad_verif)]
+            verif_initial_capacity: None,
         }
     }
 }
@@ -156,6 +160,15 @@ impl<MF, CC> SorterBuilder<MF, CC> {
         self
     }
 
+    /// Verification-only: sets the dump threshold without the minimum clamp and
+    /// overrides the initial capacity of the in-memory buffer (when reallocation is allowed).
+    #[cfg(grenad_verif)]
+    pub fn verif_budget(&mut self, dump_threshold: usize, initial_capacity: usize) -> &mut Self {
+        self.dump_threshold = dump_threshold;
+        self.verif_initial_capacity = Some(initial_capacity);
+        self
+    }
+
     /// The [`ChunkCreator`] struct used to generate the chunks used
     /// by the [`Sorter`] to bufferize when required.
     pub fn chunk_creator<CC2>(self, creation: CC2) -> SorterBuilder<MF, CC2> {
@@ -172,6 +185,8 @@ impl<MF, CC> SorterBuilder<MF, CC> {
             sort_algorithm: self.sort_algorithm,
             sort_in_parallel: self.sort_in_parallel,
             merge: self.merge,
+            #[cfg(grenad_verif)]
+            verif_initial_capacity: self.verif_initial_capacity,
         }
     }
 }
@@ -181,6 +196,11 @@ impl<MF, CC: ChunkCreator> SorterBuilder<MF, CC> {
     pub fn build(self) -> Sorter<MF, CC> {
         let capacity =
             if self.allow_realloc { INITIAL_SORTER_VEC_SIZE } else { self.dump_threshold };
+        #[cfg(grenad_verif)]
+        let capacity = match self.verif_initial_capacity {
+            Some(initial) if self.allow_realloc => initial,
+            _ => capacity,
+        };
 
         Sorter {
             chunks: Vec::new(),
@@ -495,6 +515,17 @@ where
         }
 
         Ok(())
+    }
+
+    /// Verification-only: (buffer length, bytes of entries, number of bounds, number of chunks).
+    #[cfg(grenad_verif)]
+    pub fn verif_accounting(&self) -> (usize, usize, usize, usize) {
+        (
+            self.entries.memory_usage(),
+            self.entries.entries_len,
+            self.entries.bounds_count,
+            self.chunks.len(),
+        )
     }
 
     fn threshold_exceeded(&self) -> bool {
